@@ -97,6 +97,11 @@ PROPS['C11'] = dict(modules=['Hagall.Props.C11'], profiles=['pose', 'mixed', 'jo
                     topics=slice_of(['updatePose', 'entityDelete', 'join', 'disconnect'], kinds=['queue'],
                                     outs={'poseBcast', 'sessionState', 'entityDeleteBcast'}))
 
+PROPS['C03'] = dict(modules=['Hagall.Props.C03'], profiles=['join', 'mixed', 'module', 'comp'], n=(240, 4000), focus={'join'}, extra=['noninterference'],
+                    topics=slice_of(ALL_TOPICS + ['disconnect'], kinds=['state'],
+                                    pred=lambda d: d.get('kind') != 'delivery' or d.get('conn') != d.get('actor')
+                                    or bool(d['outs'] & {'sessionState', 'vikjaState', 'odalState'})))
+
 # every property's obligations include the facts it rests on (regenerated from the source on every run)
 ABS = {'C14': ['Hagall.Gen.AbsCustom'], 'C17': ['Hagall.Gen.AbsFlags'], 'C04': ['Hagall.Gen.AbsDispatch'],
        'C18': ['Hagall.Gen.AbsLatency'], 'C19': ['Hagall.Gen.AbsChans'], 'C08': ['Hagall.Gen.AbsChans', 'Hagall.Gen.AbsDispatch']}
